@@ -26,6 +26,8 @@ from .core import SymNum, SymBool, Unsupported, is_sym
 VERIF = os.path.dirname(os.path.dirname(os.path.abspath(__file__)))
 EXIT_OK, EXIT_VIOLATION, EXIT_INCONCLUSIVE = 0, 1, 2
 CONC_TOL = 1e-8
+CONCRETE_RUN_LIMIT_S = 60.0
+VALIDATION_RETRIES = 4
 
 
 class ConcreteAssumeFailed(BaseException):
@@ -361,10 +363,27 @@ def run_concrete(job, vals, tables):
     S = ConcreteSource(vals, tables)
     from . import lib as _lib
     _lib._SOURCE[0] = S
-    res = {'goals': [], 'exception': None, 'assume_failed': False, 'missing': []}
+    res = {'goals': [], 'exception': None, 'assume_failed': False, 'missing': [], 'timeout': False}
+    import signal
+
+    class _ConcreteTimeout(BaseException):
+        pass
+
+    def _alarm(signum, frame):
+        raise _ConcreteTimeout()
+
+    prev_handler = None
+    prev_left = 0.0
+    try:
+        prev_handler = signal.signal(signal.SIGALRM, _alarm)
+        prev_left = signal.setitimer(signal.ITIMER_REAL, CONCRETE_RUN_LIMIT_S)[0]
+    except (ValueError, OSError):
+        prev_handler = None
     try:
         with _quiet():
             job.fn(S, **job.params)
+    except _ConcreteTimeout:
+        res['timeout'] = True  # the real library does not terminate on this input within the limit (reported as skipped)
     except ConcreteAssumeFailed:
         res['assume_failed'] = True
     except Exception as e:
@@ -372,6 +391,12 @@ def run_concrete(job, vals, tables):
         res['exception_type'] = type(e).__name__
         res['tb'] = traceback.format_exc()[-1500:]
     finally:
+        try:
+            if prev_handler is not None:
+                signal.signal(signal.SIGALRM, prev_handler)
+                signal.setitimer(signal.ITIMER_REAL, max(prev_left - CONCRETE_RUN_LIMIT_S, 1.0) if prev_left else 0)
+        except (ValueError, OSError):
+            pass
         if was:
             shim.install(extra=job.extra_shims)
     res['goals'] = S.goals
@@ -466,41 +491,39 @@ def run_job(job, seed=0):
                 m = None
             finally:
                 core.set_ctx(None)
-            if m is not None:
+            attempt = 0
+            outcome = None
+            first_mismatch = None
+            vals = tables = None
+            while m is not None:
                 vals, tables = _values_from_model(ctx, S, m)
-                res = run_concrete(job, vals, tables)
-                if res['assume_failed'] or res['missing']:
-                    summ['validation_skipped'] += 1
-                elif res['exception']:
-                    # the real library raises on a solver-generated input of a feasible path: a replayed failure
-                    _record_violation(job, summ, vals, tables, 'exception:%s' % res.get('exception_type'),
-                                      'concrete run of a feasible path raised ' + res['exception'] + ' | ' + res.get('tb', '')[-600:],
-                                      True, res.get('exception_type'))
-                else:
-                    bad = [l for (l, ok, _) in res['goals'] if not ok]
-                    mism = _compare_obs(ctx, m, res['observations'])
-                    if bad:
-                        # the property fails on the real code for a solver-generated input: replayed violation
-                        _record_violation(job, summ, vals, tables, bad[0], 'concrete run of a feasible path violates the goal',
-                                          True, None)
-                    elif mism:
-                        # rounding of the model at a branch boundary, or a genuine shim mismatch?  Re-run the lifted machinery
-                        # on exactly the floats the real run used and compare again.
-                        pin = run_pinned(job, vals, tables)
-                        shim.install(extra=job.extra_shims)
-                        mism2 = 'pinned run failed'
-                        if pin is not None and 'obs' in pin:
-                            mism2 = _compare_obs_lists(pin['obs'], res['observations'])
-                        if mism2:
-                            summ['validation_mismatch'].append({'path': idx, 'why': mism + ' | pinned: ' + str(mism2), 'values': _jsonable_values(vals)})
-                        else:
-                            summ['validation_skipped'] += 1
-                    else:
-                        summ['validated'] += 1
-                if len(summ['samples']) < 3:
-                    summ['samples'].append({'path': idx, 'decisions': pr.ndecisions,
-                                            'model': _short(_jsonable_values(vals)),
-                                            'goals': [g.label for g in pr.goals][:8]})
+                outcome, info = _validate_once(job, ctx, m, vals, tables)
+                if outcome != 'mismatch':
+                    break
+                if first_mismatch is None:
+                    first_mismatch = (info, vals)
+                attempt += 1
+                if attempt > VALIDATION_RETRIES:
+                    break
+                # a model on a branch boundary can flip a comparison under float rounding: try another model of the same path
+                m = _another_model(ctx, vals)
+            if m is None and first_mismatch is not None:
+                outcome, info = 'mismatch', first_mismatch[0]
+                vals = first_mismatch[1]
+            if outcome == 'validated':
+                summ['validated'] += 1
+                if attempt:
+                    summ['validated_after_retry'] = summ.get('validated_after_retry', 0) + 1
+            elif outcome == 'skipped':
+                summ['validation_skipped'] += 1
+            elif outcome == 'violation':
+                _record_violation(job, summ, vals, tables, info[0], info[1], True, info[2])
+            elif outcome == 'mismatch':
+                summ['validation_mismatch'].append({'path': idx, 'why': first_mismatch[0] if first_mismatch else info,
+                                                    'values': _jsonable_values(first_mismatch[1] if first_mismatch else vals)})
+            if vals is not None and len(summ['samples']) < 3:
+                summ['samples'].append({'path': idx, 'decisions': pr.ndecisions, 'model': _short(_jsonable_values(vals)),
+                                        'goals': [g.label for g in pr.goals][:8]})
         elif len(summ['samples']) < 2:
             summ['samples'].append({'path': idx, 'decisions': pr.ndecisions, 'goals': [g.label for g in pr.goals][:8]})
 
@@ -541,6 +564,62 @@ def run_job(job, seed=0):
         summ['errors'].append({'kind': 'vacuous', 'msg': 'no goal was reached on any path'})
     summ['wall_s'] = round(time.time() - t0, 3)
     return summ
+
+
+def _validate_once(job, ctx, m, vals, tables):
+    res = run_concrete(job, vals, tables)
+    if res['assume_failed'] or res['missing'] or res.get('timeout'):
+        return 'skipped', None
+    if res['exception']:
+        # the real library raises on a solver-generated input of a feasible path: a replayed failure
+        return 'violation', ('exception:%s' % res.get('exception_type'),
+                             'concrete run of a feasible path raised ' + res['exception'] + ' | ' + res.get('tb', '')[-600:], res.get('exception_type'))
+    bad = [l for (l, ok, _) in res['goals'] if not ok]
+    if bad:
+        return 'violation', (bad[0], 'concrete run of a feasible path violates the goal', None)
+    mism = _compare_obs(ctx, m, res['observations'])
+    if not mism:
+        return 'validated', None
+    # rounding of the model at a branch boundary, or a genuine shim mismatch?  Re-run the lifted machinery on exactly the floats
+    # the real run used and compare again.
+    pin = run_pinned(job, vals, tables)
+    shim.install(extra=job.extra_shims)
+    mism2 = 'pinned run failed'
+    if pin is not None and 'obs' in pin:
+        mism2 = _compare_obs_lists(pin['obs'], res['observations'])
+    if mism2:
+        return 'mismatch', mism + ' | pinned: ' + str(mism2)
+    return 'skipped', None
+
+
+def _another_model(ctx, vals):
+    """A model of the same path condition that differs from the given input values (away from the previous point)."""
+    try:
+        core.set_ctx(ctx)
+        diffs = []
+        for name, v in ctx.inputs.items():
+            if isinstance(v, SymNum) and not v.is_int and not v.is_const() and name in vals:
+                c = vals[name]
+                diffs.append(z3.Or(v.z3() >= z3.Q(c.numerator, c.denominator) + z3.Q(1, 16), v.z3() <= z3.Q(c.numerator, c.denominator) - z3.Q(1, 16)))
+        if not diffs:
+            return None
+        ctx.solver.push()
+        try:
+            ctx.solver.add(z3.And(*diffs))
+            r = ctx.solver.check()
+            if r != z3.sat:
+                ctx.solver.add(z3.BoolVal(True))
+                ctx.solver.pop()
+                ctx.solver.push()
+                ctx.solver.add(z3.Or(*diffs))
+                r = ctx.solver.check()
+            return ctx.solver.model() if r == z3.sat else None
+        finally:
+            ctx.solver.pop()
+    except BaseException:
+        return None
+    finally:
+        core.set_ctx(None)
 
 
 def _short(d, n=12):
